@@ -13,6 +13,7 @@
 //! labels = [0] get | [1,c] return | [2,c] Connection::take | [3,c,k] use (0 WATCH 1 GET 2 SET 3 UNWATCH)
 //!        | [4,c,mode,v] next PING on c is answered: 0 echo, 1 bulk v, 2 simple string v, 3 integer v,
 //!                       4 nil, 5 error, 6 the server hangs up, 7 +PONG, 8 bulk PONG,
+//!                       10 the number zero padded, 11 the number with a plus sign (not the echo),
 //!                       9 no answer at all (only with cfg[1] = 1: the manager has a response timeout)
 //!        | [5,c] next UNWATCH on c is answered with an error | [6] next connect: hang up after accept
 //!        | [7,c] the server hangs up on c now
@@ -162,6 +163,9 @@ async fn serve(mut s: TcpStream, id: usize, sh: Sh, kill: Arc<Notify>) {
                             // the argument-less answer: not the echo of the number (value -7 in the log)
                             7 => (1, -7, Some("+PONG\r\n".into())),
                             8 => (1, -7, Some("$4\r\nPONG\r\n".into())),
+                            // another string that denotes the same number: zero padded / with a sign
+                            10 => (1, -7, Some(format!("${}\r\n00{}\r\n", arg.len() + 2, arg))),
+                            11 => (1, -7, Some(format!("+{}{}\r\n", "+", arg))),
                             // silent: the PING is read and never answered, the socket stays open
                             9 => (0, 0, Some(String::new())),
                             _ => (0, 0, None),
@@ -413,7 +417,7 @@ fn gen_label(rng: &mut Rng, cs: &Case, profile: Profile) -> Vec<i64> {
         4 => {
             let c = target(rng);
             let silent_ok = cs.cfg.get(1).copied().unwrap_or(0) == 1;
-            let mode = 1 + rng.weighted(&[4, 2, 2, 1, 3, 3, 2, 2, if silent_ok { 3 } else { 0 }]) as i64;
+            let mode = 1 + rng.weighted(&[4, 2, 2, 1, 3, 3, 2, 2, if silent_ok { 3 } else { 0 }, 2, 2]) as i64;
             let v = match rng.weighted(&[5, 3, 2]) {
                 0 => rng.below(last_ping.max(0) as u64 + 1) as i64, // stale: a number used before
                 1 => last_ping + 1 + rng.below(3) as i64,          // may even be the right one
